@@ -1,13 +1,16 @@
 //! Checks on the API crates: C16 (endpoints over the HTTP wire format) and C19 (string enums).
 use vf_engine::Check;
 
+mod c16;
 mod c19;
+mod endpoints_gen;
 
 fn main() {
     let args: Vec<String> = std::env::args().skip(1).collect();
     let id = args.first().cloned().unwrap_or_default();
     let mut ck = Check::from_env(&id, &args[1.min(args.len())..]);
     match id.as_str() {
+        "C16" => c16::run(&mut ck),
         "C19" => c19::run(&mut ck),
         _ => {
             eprintln!("vf-api: unknown property {id}");
